@@ -316,6 +316,18 @@ def best_effort(ctx, cfg, fs):
     ok = bool(errs) and all(any(b.dominates(s.bb, e) and not any(o in reachable_edges(b, s.bb) for o in ok_return_blocks(b)) for s in swaps) for e in errs)
     ctx.ob('B.best-effort', 'ParseAdjacent::eval:failure-hands-back-state', ok, 'the failure exit of an adjacent group swaps its best-effort state into the caller\'s state (items it did not consume, such as the help flag, stay visible): %s' % ok, where=b.where(), cfg=cfg)
 
+    # ... and with the caller's own scope: the attempts run on scopes narrowed to `start..end` (and trimmed to the adjacent
+    # block); if that narrowing came back with the state, a help flag typed outside the attempted block would be
+    # invisible to the help lookup of run_subparser
+    w_, eps = scopes.track(b, want='Err')
+    fin = {}
+    for p_ in eps:
+        fin.setdefault(repr(p_.store.get(('sc', 'args'))), []).append(p_)
+    for k_, v_ in sorted(fin.items()):
+        ctx.ob('B.best-effort', 'ParseAdjacent::eval:failure-scope:%s' % k_, k_ == repr(('entry',)),
+               'ParseAdjacent::eval: %d failure path(s) return with the caller\'s scope = %s (must be the scope at entry, so that items outside the attempted block stay visible)' % (len(v_), k_), where=b.where(v_[0].blocks[-1]), cfg=cfg)
+    if not eps:
+        raise Broken('ParseAdjacent::eval: no Err path found')
     # ties keep the EARLIER attempt: its state has the widest remaining scope (start..end of the enclosing scope), so a
     # help flag typed between two equally incomplete occurrences of the group stays visible to the help lookup
     upd = [c for c in b.calls() if c.is_(r'^std::mem::swap::<args::inner::State>$') and 'args' not in [scopes.state_id(b, a, c.bb) for a in c.args]]
